@@ -73,6 +73,8 @@ class C17(Harness):
         ne = choice("ne", 1, 3 if k != "column-ensemble" else 2)
         nk = choice("nk", 2, 3) if k != "tsf-regressor" else 1
         inp["labels"] = choice("labels", 0, 2)
+        if k == "column-ensemble":
+            inp["dup_names"] = bool(ctx.fresh_bool("dup_names"))
         p = [[fresh_reals(ctx, "p%d_%d_" % (e, i), nk) for i in range(ni)] for e in range(ne)]
         if k != "tsf-regressor":
             for e in range(ne):
@@ -173,13 +175,16 @@ class C17(Harness):
                         return self
 
                     def predict_proba(self, X):
-                        seen.append([self.e, [[S(v) for v in list(X.iloc[i, 0])] for i in range(X.shape[0])]])
+                        seen.append([self.e, [[S(v) for v in list(X.iloc[i, 0])] for i in range(X.shape[0])], int(X.shape[1])])
                         return mk_tree(self.e, record=False).predict_proba(None)
 
                 CE = W.load("sktime.classification.compose._column_ensemble").ColumnEnsembleClassifier
                 Xn, _ = _c14.HARNESS._nested(inp["x"])
                 ys = np.array((labels[:nk] * 3)[: max(ni, nk)])
                 Xfit, _ = _c14.HARNESS._nested([inp["x"][i % ni] for i in range(len(ys))])
+                if inp.get("dup_names"):  # two univariate panels put side by side carry the same default column label
+                    Xn.columns = ["dim_0", "dim_0"]
+                    Xfit.columns = ["dim_0", "dim_0"]
                 ce = CE([("m%d" % e, Clf(e=e), [e % 2]) for e in range(ne)] + [("unused", "drop", [0])])  # a member specified as 'drop' does not vote
                 ce.fit(Xfit, ys)
                 del seen[:]
@@ -295,7 +300,8 @@ class C17(Harness):
                     P.eq("column-ensemble-average", proba[i][c], sum(p[e][i][c] for e in range(ne)) / ne)
             pred_ok(out["pred"], proba, out["classes"])
             P.check("column-ensemble-average", len(out["members_saw"]) == ne)
-            for e, rows in out["members_saw"]:
+            for e, rows, ncols in out["members_saw"]:
+                P.check("column-ensemble-average", ncols == 1, {"member": e, "columns_received": ncols})
                 for i in range(ni):
                     for a, b in zip(rows[i], x[i][e % 2]):
                         P.eq("column-ensemble-average", a, b, {"member": e})
